@@ -1,6 +1,281 @@
-(* C04 -- placeholder, completed below *)
-From Coq Require Import List Bool ZArith.
-From Pandora Require Import Model.Criteria Model.FlagSteps Gen.Flags.
-Theorem C04_flags_wf : wf_env (mkEnv consts flag_sites) = true.
+(* C04 -- validity flags, NaN costs and invalid disparities tell one coherent story.
+   Statements only; proofs are in Proofs/FlagEnvP.v, CriteriaP.v, FlagStepsP.v, FlagPipelineP.v,
+   FlagWtaP.v.
+
+   Reading guide.
+   * [E : env] = the constants of pandora/constants.py and the list of EVERY write to a validity
+     mask found in the source (operator += / -= / |= / =, constant, syntactic guard), regenerated
+     on every run into Gen/Flags.v.  All theorems are proved for ANY environment satisfying the
+     boolean predicate [wf_env]; [C04_flags_wf] re-proves it for the regenerated one (a complete
+     computation), so a new / changed write in the code breaks that obligation.
+   * [L : layout] = image size, window half-width, GLOBAL integer interval, the two masks and their
+     conventions; [scene_of L gmin gmax] = its documented reading (Spec/Validity.v), gmin/gmax the
+     per-pixel interval grids.  [after_mc E L allnan r c] = the flag of pixel (r, c) after
+     matching_cost_prepare + cv_masked (Model/Criteria.v), [allnan] the NaN pattern of the cost
+     volume; [nan_pattern_ok] is C02's statement about it (all costs NaN iff no disparity of the
+     global interval is computable), the hypothesis under which the flags are read.
+   * [t_step E offpos border s d m] = what step [s] does to the flag [m] of one pixel when its
+     numeric side takes decision [d] (any decision: stopped / refined, consistent / occlusion /
+     mismatch / outside, fillable or not, regularised or not).
+   * [inv_b m] : 0 <= m < 4096, bit 10 clear, not both bit 8 and bit 9.  [pinv_b cR cI m] adds
+     "bit 3 clear if cR" and "bits 4, 5 clear if cI" (cR / cI: no refinement / interpolation so far).
+   * [ok_step] / [snd (run_pipe ...)] : every += found its bit clear and every -= found it set. *)
+From Coq Require Import List Bool ZArith QArith.
+From Pandora Require Import Lib.Ext Model.Machine Spec.Language Model.Criteria Model.FlagSteps Model.FlagPipeline
+  Model.Wta Spec.Validity Proofs.WtaP
+  Model.MatchingCost Proofs.MatchingCostP
+  Proofs.FlagEnvP Proofs.CriteriaP Proofs.FlagStepsP Proofs.FlagPipelineP Proofs.FlagWtaP Proofs.FlagCostP Gen.Flags.
+Import ListNotations.
+Open Scope Z_scope.
+
+Definition E0 : env := mkEnv consts flag_sites.
+
+(* ---- per-run obligations on the regenerated data *)
+
+(* exactly the 47 known writes, in order, each with its documented constant, an acceptable operator
+   and the guard that makes it carry-free; constants = 2^bit, INVALID = bits 0,1,6,7,8,9 *)
+Theorem C04_flags_wf : wf_env E0 = true.
 Proof. vm_compute. reflexivity. Qed.
+
+(* the information bits 3, 4, 5 are set with `|=` in the tree under test: the guard of the pipeline
+   theorem holds for EVERY pipeline (with `+=` it would exclude repeated refinement / interpolation) *)
+Theorem C04_info_bits_idempotent :
+  refine_idem E0 && interp_idem E0 IMcCnn && interp_idem E0 ISgm = true.
+Proof. vm_compute. reflexivity. Qed.
+
+Theorem C04_guard_holds_for_every_pipeline : forall p cR cI, pipeline_guard E0 cR cI p = true.
+Proof.
+  pose proof C04_info_bits_idempotent as H. apply andb_prop in H as [H H3]. apply andb_prop in H as [H1 H2].
+  exact (guard_trivial E0 H1 H2 H3).
+Qed.
+
+(* ---- after the matching cost: every layout, every pixel *)
+
+Section AfterMatchingCost.
+  Variables (E : env) (L : layout) (gmin gmax : Z -> Z -> Z) (allnan : Z -> Z -> bool).
+  Hypothesis Hwf : wf_env E = true.
+  Hypothesis Hoff : 0 <= off L.
+  Hypothesis Hd : dmin L <= dmax L.
+  Let S := scene_of L gmin gmax.
+  Let flag := after_mc E L allnan.
+  Let nan_ok := nan_pattern_ok L gmin gmax allnan.
+
+  (* the mask the code builds is the documented one: 1 on the border, elsewhere exactly the bits whose
+     documented cause holds *)
+  Theorem C04_after_mc_expected : forall r c, in_img S r c -> nan_ok r c ->
+    flag r c = expected_flag S r c.
+  Proof. exact (flag_expected E L gmin gmax allnan Hwf Hoff Hd). Qed.
+
+  Theorem C04_border_bit0_only : forall r c, border S r c -> nan_ok r c -> flag r c = 1.
+  Proof. exact (border_bit0_only E L gmin gmax allnan Hwf Hoff Hd). Qed.
+
+  Theorem C04_bit0_iff : forall r c, in_img S r c -> win_in S r c -> nan_ok r c ->
+    (Z.testbit (flag r c) 0 = true <-> cause0 S r c).
+  Proof. exact (bit0_iff E L gmin gmax allnan Hwf Hoff Hd). Qed.
+
+  Theorem C04_bit1_iff : forall r c, in_img S r c -> win_in S r c -> nan_ok r c ->
+    (Z.testbit (flag r c) 1 = true <-> cause1 S r c).
+  Proof. exact (bit1_iff E L gmin gmax allnan Hwf Hoff Hd). Qed.
+
+  Theorem C04_bit2_iff : forall r c, in_img S r c -> win_in S r c -> nan_ok r c ->
+    (Z.testbit (flag r c) 2 = true <-> cause2 S r c).
+  Proof. exact (bit2_iff E L gmin gmax allnan Hwf Hoff Hd). Qed.
+
+  Theorem C04_bit6_iff : forall r c, in_img S r c -> win_in S r c -> nan_ok r c ->
+    (Z.testbit (flag r c) 6 = true <-> cause6 S r c).
+  Proof. exact (bit6_iff E L gmin gmax allnan Hwf Hoff Hd). Qed.
+
+  Theorem C04_bit7_iff : forall r c, in_img S r c -> win_in S r c -> nan_ok r c ->
+    (Z.testbit (flag r c) 7 = true <-> cause7 S r c).
+  Proof. exact (bit7_iff E L gmin gmax allnan Hwf Hoff Hd). Qed.
+
+  (* no other bit than 0, 1, 2, 6, 7 *)
+  Theorem C04_mc_only_criteria_bits : forall r c, in_img S r c -> nan_ok r c ->
+    Z.land (flag r c) 199 = flag r c /\ 0 <= flag r c < 256.
+  Proof. exact (mc_only_criteria_bits E L gmin gmax allnan Hwf Hoff Hd). Qed.
+
+  (* an 'invalid' flag (bits 0, 1, 6, 7 = 0b11000011) iff none of the costs is computable, iff all NaN *)
+  Theorem C04_invalid_iff_nocost : forall r c, in_img S r c -> nan_ok r c ->
+    (Z.land (flag r c) 195 <> 0 <-> no_cost S r c).
+  Proof. exact (invalid_iff_nocost E L gmin gmax allnan Hwf Hoff Hd). Qed.
+
+  Theorem C04_invalid_iff_allnan : forall r c, in_img S r c -> nan_ok r c ->
+    (Z.land (flag r c) 195 <> 0 <-> allnan r c = true).
+  Proof. exact (invalid_iff_allnan E L gmin gmax allnan Hwf Hoff Hd). Qed.
+End AfterMatchingCost.
+
+(* ---- the same without any hypothesis on the NaN pattern, for the SAD and SSD cost-volume models of C02
+   (any image size, odd window, subpix >= 1, masks, interval grids): C02 proves the NaN pattern
+   (Proofs/MatchingCostP.v: cost = NaN iff not computable) and a sample d = D/subpix is computable only
+   if the integer floor(d) is.  [layout_of inp dmin dmax] = the layout the criteria functions see,
+   [vol_allnan ... vol r c] = "every cost of pixel (r, c) in the volume is NaN". *)
+Theorem C04_nan_pattern_sad : forall inp dmin dmax r c, wf_cfg inp -> dmin <= dmax ->
+  0 <= r < i_ny inp -> 0 <= c < i_nx inp ->
+  nan_pattern_ok (layout_of inp dmin dmax) (i_gmin inp) (i_gmax inp)
+                 (vol_allnan inp dmin dmax (sad_volume inp dmin dmax)) r c.
+Proof. exact nan_pattern_sad. Qed.
+
+Theorem C04_invalid_iff_allnan_sad : forall E inp dmin dmax r c,
+  wf_env E = true -> wf_cfg inp -> dmin <= dmax -> 0 <= r < i_ny inp -> 0 <= c < i_nx inp ->
+  (Z.land (after_mc E (layout_of inp dmin dmax) (vol_allnan inp dmin dmax (sad_volume inp dmin dmax)) r c) 195 <> 0
+   <-> forall k, 0 <= k < nb_disp (i_s inp) dmin dmax -> sad_volume inp dmin dmax r c k = None).
+Proof. exact invalid_iff_allnan_sad. Qed.
+
+Theorem C04_invalid_iff_allnan_ssd : forall E inp dmin dmax r c,
+  wf_env E = true -> wf_cfg inp -> dmin <= dmax -> 0 <= r < i_ny inp -> 0 <= c < i_nx inp ->
+  (Z.land (after_mc E (layout_of inp dmin dmax) (vol_allnan inp dmin dmax (ssd_volume inp dmin dmax)) r c) 195 <> 0
+   <-> forall k, 0 <= k < nb_disp (i_s inp) dmin dmax -> ssd_volume inp dmin dmax r c k = None).
+Proof. exact invalid_iff_allnan_ssd. Qed.
+
+(* ---- after winner-takes-all (model of C03): invalid_disparity iff all costs NaN, flags carried over.
+   Hypothesis on invalid_disparity exactly as in the property: NaN ([None]) or a value that is not a
+   sampled disparity (in particular any value outside the searched interval). *)
+Theorem C04_allnan_iff_invalid_disp : forall mx B nr nc disps invalid cv conf mask r c,
+  1 <= B -> 0 <= r < nr -> 0 <= c < nc -> cv r c <> [] -> no_subst_inf mx (cv r c) ->
+  length disps = length (cv r c) ->
+  (forall d, In d disps -> invalid <> Some d) ->
+  (forallb is_nan (cv r c) = true <-> o_disp (to_disp mx B nr nc disps invalid cv conf mask) r c = invalid)
+  /\ o_mask (to_disp mx B nr nc disps invalid cv conf mask) r c = mask r c.
+Proof. exact allnan_iff_invalid_disp. Qed.
+
+(* ---- one step, any state of the invariant, any decision of the step *)
+
+Theorem C04_inv_meaning : forall m, inv_b m = true <->
+  0 <= m < 4096 /\ Z.testbit m 10 = false /\ (Z.testbit m 8 && Z.testbit m 9) = false.
+Proof. exact inv_b_spec. Qed.
+
+(* every += / -= of the step is carry-free, the invariant is re-established, a border pixel keeps 1
+   (or 1 + bit 11), and the flag changes only inside the step's own bits:
+   own = {3} refinement, {8,9} validation, {4,5,8,9} validation with interpolation,
+         {11} median_for_intervals with regularization, {} any other filter, multiscale *)
+Theorem C04_step_touches_own_bits : forall E, wf_env E = true ->
+  forall cR cI offpos border s d m,
+  pinv_b cR cI m = true -> g_stepE E cR cI s = true -> bI (offpos && border) m ->
+  ok_step E offpos border s d m = true
+  /\ pinv_b (nR cR s) (nI cI s) (t_step E offpos border s d m) = true
+  /\ bI (offpos && border) (t_step E offpos border s d m)
+  /\ ((offpos && border = true -> m = 1) ->
+      Z.ldiff (t_step E offpos border s d m) (own s) = Z.ldiff m (own s)).
+Proof. exact t_step_facts. Qed.
+
+Theorem C04_own_bits_values :
+  own SRef = 2 ^ 3 /\ own (SVal INone) = 2 ^ 8 + 2 ^ 9 /\ own (SVal IMcCnn) = 2 ^ 4 + 2 ^ 5 + 2 ^ 8 + 2 ^ 9
+  /\ own (SVal ISgm) = 2 ^ 4 + 2 ^ 5 + 2 ^ 8 + 2 ^ 9 /\ own (SFlt true) = 2 ^ 11 /\ own (SFlt false) = 0
+  /\ own SMsc = 0.
+Proof. repeat split. Qed.
+
+(* ---- every legal pipeline *)
+
+Section Pipelines.
+  Variables (E : env) (L : layout) (gmin gmax : Z -> Z -> Z) (allnan : Z -> Z -> bool) (r c : Z).
+  Hypothesis Hwf : wf_env E = true.
+  Hypothesis Hoff : 0 <= off L.
+  Hypothesis Hd : dmin L <= dmax L.
+  Hypothesis Hin : in_img (scene_of L gmin gmax) r c.
+  Hypothesis Hnan : nan_pattern_ok L gmin gmax allnan r c.
+
+  (* for every pipeline of the documented language (C01: MC (Agg|Opt|Seg|Cvc)* [Dsp (Flt|Ref|Val|Msc)*],
+     any length, any repetition), every decision of every step, every pixel: all the += / -= executed on
+     the pixel's flag were carry-free, and the final flag is < 4096 with only documented bits
+     (bit 10 never raised, never both occlusion and mismatch, a border pixel carries bit 0 -- plus
+     bit 11 if a regularising median_for_intervals marked it) *)
+  Theorem C04_pipeline_flags_documented : forall p,
+    doc_accepts (kinds_of_p p) = true -> pipeline_guard E true true (fsteps_of p) = true ->
+    let res := run_pipe E L allnan r c p in
+    snd res = true /\
+    match doc_path Begin (kinds_of_p p) with
+    | Some Begin => fst res = None
+    | Some CostVolume => fst res = Some (after_mc E L allnan r c)
+    | Some DispMap => exists m, fst res = Some m /\ 0 <= m < 4096 /\ Z.testbit m 10 = false
+                                /\ (Z.testbit m 8 && Z.testbit m 9) = false
+                                /\ (px_offpos L && px_border L r c = true -> m = 1 \/ m = 2049)
+    | None => False
+    end.
+  Proof. exact (pipeline_flags_documented E Hwf L gmin gmax allnan r c Hoff Hd Hin Hnan). Qed.
+End Pipelines.
+
+(* the same for the tree under test, without any guard *)
+Theorem C04_pipeline_flags_documented_gen : forall L gmin gmax allnan r c p,
+  0 <= off L -> dmin L <= dmax L -> in_img (scene_of L gmin gmax) r c ->
+  nan_pattern_ok L gmin gmax allnan r c ->
+  doc_accepts (kinds_of_p p) = true ->
+  let res := run_pipe E0 L allnan r c p in
+  snd res = true /\
+  match doc_path Begin (kinds_of_p p) with
+  | Some Begin => fst res = None
+  | Some CostVolume => fst res = Some (after_mc E0 L allnan r c)
+  | Some DispMap => exists m, fst res = Some m /\ 0 <= m < 4096 /\ Z.testbit m 10 = false
+                              /\ (Z.testbit m 8 && Z.testbit m 9) = false
+                              /\ (px_offpos L && px_border L r c = true -> m = 1 \/ m = 2049)
+  | None => False
+  end.
+Proof.
+  intros L gmin gmax allnan r c p Hoff Hd Hin Hnan Hacc.
+  apply (pipeline_flags_documented E0 C04_flags_wf L gmin gmax allnan r c Hoff Hd Hin Hnan p Hacc).
+  apply C04_guard_holds_for_every_pipeline.
+Qed.
+
+(* with `+=` on an information bit the statement without guard is FALSE: the tree as found
+   (refinement `mask += 8`, D3) turned 8 into 16 when refinement ran twice *)
+Definition sites_before_fix : list site :=
+  map (fun s => match s_role s with
+                | R_ref_method | R_ref_stopped => mkSite (s_role s) (s_line s) OpAdd (s_expr s) (s_guards s)
+                | _ => s
+                end) flag_sites.
+Theorem C04_repeated_refinement_before_fix :
+  wf_env (mkEnv consts sites_before_fix) = true
+  /\ let d := mkDec RBound XOk false false false false false in
+     run_flags (mkEnv consts sites_before_fix) false false [(SRef, d); (SRef, d)] 0 = 16
+     /\ pipeline_guard (mkEnv consts sites_before_fix) true true [SRef; SRef] = false
+     /\ run_flags E0 false false [(SRef, d); (SRef, d)] 0 = 8.
+Proof. vm_compute. repeat split. Qed.
+
+(* Non-vacuity: a 3 x 7 pair, window 3, interval [-2, 1], a no-data pixel in the left mask and a masked
+   pixel in the right one; NaN pattern = the one C02 prescribes.  The hypotheses hold and the centre row
+   after the matching cost reads 1 7 4 0 0 4 1: border pixels 1; pixel 1 has the no-data pixel in its
+   window (bit 0), hence no computable cost (bit 1), and candidates left of the image (bit 2); pixels 2 and
+   5 only an incomplete range (bit 2).  Then, on pixel 3, a legal pipeline with refinement twice,
+   validation + sgm interpolation twice (mismatch, then filled) and a median_for_intervals filter that does not
+   regularise this pixel: stopped interpolation + filled mismatch = 8 + 32, every write carry-free. *)
+Definition ex_L : layout :=
+  mkLayout 3 7 1 (-2) 1 true true
+    (fun r c => if (r =? 0) && (c =? 0) then 1 else 0)
+    (fun r c => if (r =? 1) && (c =? 5) then 2 else 0) 1 0 1 0.
+Definition ex_S := scene_of ex_L (fun _ _ => -2) (fun _ _ => 1).
+Definition ex_allnan := no_cost_b ex_S.
+Example C04_example :
+  (forall r c, nan_pattern_ok ex_L (fun _ _ => -2) (fun _ _ => 1) ex_allnan r c)
+  /\ map (after_mc E0 ex_L ex_allnan 1) [0; 1; 2; 3; 4; 5; 6] = map (expected_flag ex_S 1) [0; 1; 2; 3; 4; 5; 6]
+  /\ map (after_mc E0 ex_L ex_allnan 1) [0; 1; 2; 3; 4; 5; 6] = [1; 7; 4; 0; 0; 4; 1]
+  /\ let dx := mkDec RBound (XInval true) false true true false false in
+     let p := [(PMc, dx); (PCv CCvc, dx); (PDsp, dx); (PDm SRef, dx); (PDm SRef, dx);
+               (PDm (SVal ISgm), dx); (PDm (SVal ISgm), dx); (PDm (SFlt true), dx)] in
+     doc_accepts (kinds_of_p p) = true /\ run_pipe E0 ex_L ex_allnan 1 3 p = (Some (8 + 32), true).
+Proof.
+  split; [intros r c; unfold nan_pattern_ok, ex_allnan; apply no_cost_b_iff|].
+  vm_compute. repeat split.
+Qed.
+
 Print Assumptions C04_flags_wf.
+Print Assumptions C04_info_bits_idempotent.
+Print Assumptions C04_guard_holds_for_every_pipeline.
+Print Assumptions C04_after_mc_expected.
+Print Assumptions C04_border_bit0_only.
+Print Assumptions C04_bit0_iff.
+Print Assumptions C04_bit1_iff.
+Print Assumptions C04_bit2_iff.
+Print Assumptions C04_bit6_iff.
+Print Assumptions C04_bit7_iff.
+Print Assumptions C04_mc_only_criteria_bits.
+Print Assumptions C04_invalid_iff_nocost.
+Print Assumptions C04_invalid_iff_allnan.
+Print Assumptions C04_nan_pattern_sad.
+Print Assumptions C04_invalid_iff_allnan_sad.
+Print Assumptions C04_invalid_iff_allnan_ssd.
+Print Assumptions C04_allnan_iff_invalid_disp.
+Print Assumptions C04_inv_meaning.
+Print Assumptions C04_step_touches_own_bits.
+Print Assumptions C04_own_bits_values.
+Print Assumptions C04_pipeline_flags_documented.
+Print Assumptions C04_pipeline_flags_documented_gen.
+Print Assumptions C04_repeated_refinement_before_fix.
